@@ -211,6 +211,8 @@ func (r *NgReader) readOption() error {
 		}
 		return nil
 	}
+	// a zero-length option has an empty value, not the value of the previous option
+	r.currentOption.value = r.currentOption.value[:0]
 	if length != 0 {
 		if length < uint16(cap(r.currentOption.value)) {
 			r.currentOption.value = r.currentOption.value[:length]
